@@ -41,6 +41,8 @@ def proof_jobs(tier):
                 jobs.append(("mapper", mc, f, None))
     for fc in K.dispatch_contracts(ks) + K.foreign_contracts():
         jobs.append(("function", fc, None, None))
+    for k in ks + ["<constant>", "<list>", "<tuple>"]:
+        jobs.append(("mapper", K.CALLBACK, k, None))
     return jobs
 
 
@@ -513,7 +515,86 @@ def b_unhandled(tier):
 
 
 def bounded(tier, seed, procs):
-    return [b_walk(tier), b_identity(tier), b_combine(tier), b_dispatch(tier), b_unhandled(tier)]
+    return [b_walk(tier), b_identity(tier), b_combine(tier), b_dispatch(tier), b_unhandled(tier), b_callback(tier)]
+
+
+def b_callback(tier):
+    """CallbackMapper: every node type it lists goes to the user function with (node, mapper, *args, **kwargs); the fallback mapper's rec is the callback's."""
+    import pymbolic.primitives as p
+    from pymbolic.mapper import CallbackMapper, IdentityMapper
+    b = BoundedRun("callback-mapper", rule="CallbackMapper(f, IdentityMapper()) on one instance of every node class, numbers, lists, tuples x 2 argument tuples: f is called exactly "
+                   "once with (the node, the callback mapper, the extra arguments) and its result is returned; a function that delegates to the fallback mapper gets an equal "
+                   "tree back and is called for every node of the tree (the fallback's rec is the callback's)", bound="one instance per class x 2 argument tuples + 30 trees",
+                   functions=["CallbackMapper.map_*", "CallbackMapper.__init__"])
+    import warnings as _w
+    insts = []
+    for k in classes():
+        try:
+            with _w.catch_warnings():
+                _w.simplefilter("ignore")
+                insts.append(trees.build(k, [trees.X, trees.Y, 2][:trees.ARITY.get(k, 0)]))
+        except Exception:   # noqa: BLE001
+            continue
+    insts += [3, 2.5, [trees.X, 1], (trees.X, trees.Y)]
+    for e in insts:
+        for a, kw in (((), {}), ((1, "two"), {"k": 3})):
+            calls = []
+
+            def f(expr, mapper, *aa, **kk):
+                calls.append((expr, mapper, aa, kk))
+                return ("result", len(calls))
+            cm = CallbackMapper(f, IdentityMapper())
+            r = outcome.run(lambda: cm(e, *a, **kw))
+            b.case(("cb", type(e).__name__, repr(a)), sample=dict(cls=type(e).__name__))
+            handled = hasattr(CallbackMapper, getattr(type(e), "mapper_method", "map_constant")) or not isinstance(e, p.Expression)
+            if not handled:
+                ok = r[0] == "exc"
+            else:
+                ok = r == ("val", ("result", 1)) and len(calls) == 1 and calls[0][0] is e and calls[0][1] is cm and calls[0][2] == a and calls[0][3] == kw
+            if not ok:
+                b.fail(Failure("callback-mapper", f"mode=direct cls={type(e).__name__} args={a}", dict(kind="callback", cls=type(e).__name__), expected="f(node, mapper, *args, **kwargs) once",
+                               actual=f"{outcome.describe(r)} calls={len(calls)}"[:200], functions=["CallbackMapper.map_*"]))
+    # delegation to the fallback mapper
+    x, y = trees.X, trees.Y
+    sample = [p.Sum((x, p.Product((y, 2)))), p.Quotient(p.Sum((x, 1)), p.Power(y, 2)), p.Call(trees.F, (p.Sum((x, y)), 3)), p.If(p.Comparison(x, "<", y), x, p.Sum((y, 1))),
+              p.Subscript(trees.A, p.Sum((x, 1))), p.Sum((x, x, p.Product((x, y))))]
+    for e in sample:
+        seen = []
+
+        def g(expr, mapper):
+            seen.append(expr)
+            if isinstance(expr, p.Variable) and expr.name == "x":
+                return p.Variable("renamed")
+            return getattr(mapper.fallback_mapper, getattr(type(expr), "mapper_method", "map_constant") if isinstance(expr, p.Expression) else "map_constant")(expr)
+        cm = CallbackMapper(g, IdentityMapper())
+        r = outcome.run(lambda: cm(e))
+        b.case(("cb-deleg", repr(e)))
+        want = ref_rename_x(e)
+        n_nodes = count_nodes(e)
+        if not (r[0] == "val" and r[1] == want and len(seen) == n_nodes):
+            b.fail(Failure("callback-mapper", f"mode=delegate expr={e!r}", dict(kind="callback-deleg", expr=repr(e)), expected=f"{want!r} with {n_nodes} callbacks",
+                           actual=f"{outcome.describe(r)[:120]} callbacks={len(seen)}", functions=["CallbackMapper.__init__", "CallbackMapper.map_*"]))
+    return b
+
+
+def ref_rename_x(e):
+    import pymbolic.primitives as p
+    if isinstance(e, p.Variable):
+        return p.Variable("renamed") if e.name == "x" else e
+    if isinstance(e, p.Expression):
+        return api.map_children(e, ref_rename_x)
+    if isinstance(e, tuple):
+        return tuple(ref_rename_x(c) for c in e)
+    return e
+
+
+def count_nodes(e):
+    import pymbolic.primitives as p
+    if isinstance(e, p.Expression):
+        return 1 + sum(count_nodes(c) for c in api.children(e) if c is not None)
+    if isinstance(e, (tuple, list)):
+        return sum(count_nodes(c) for c in e)
+    return 1
 
 
 def replay(case):
